@@ -11,7 +11,7 @@ claimed = {
    text="Unbounded deductive proof: every header encoder (pb request/response MarshalTo/Marshal/Size, code request/response Marshal), the varint "
         "primitives of hslam/code (verified from the module source), checkBuffer and the upgrade byte meet a wire-format spec function written "
         "from the documented formats, for every field value, every length up to 2^47 and every capacity/content of the scratch buffer; varint loops are "
-        "unrolled to the operand width (10) with an unwinding assertion, which is complete. Decoder functional (round-trip) cases and the json header are listed in level_note.",
+        "unrolled to the operand width (10) with an unwinding assertion, which is complete. The default-header write paths (clientCodec.WriteRequest, serverCodec.WriteResponse) are proved to emit exactly that format for the request/response fields and to grow the scratch buffer on demand. Decoder functional (round-trip) cases and the json header are listed in level_note.",
    note=TRUST+"encoding/json is trusted (only struct tags are checked); decoders are proved only for their safety case (C08) so far; "
         "preconditions of the encoders (scratch buffer does not alias the fields) are checked at their in-repo call sites only where those are under contract.",
    design="5/C07", technique="contract-based deductive verification: generated WP obligations over go/ssa, discharged by z3"),
@@ -27,7 +27,7 @@ claimed = {
    text="Deductive proof that getConn returns only a connection whose ghost dial address equals the requested address and which was observed alive under its mutex during the call "
         "(or freshly dialed), that newPersistConn reports ErrDial on every dial failure, and that each Transport call form issues at most one call, on exactly the connection "
         "returned for that address, and marks and closes it when the call reports ErrShutdown. The genuine defect found by the aliveSeen postcondition (second idle path) is repaired by a fix: commit.",
-   note=TRUST+"Conn.Call/Go/... are assumed contracts here (ghost call counter); Transport.Go/RoundTrip wrappers not yet under contract; the history claim 'at most one failure per pooled connection' is not decided.",
+   note=TRUST+"Conn.Call/Go/... carry a ghost call counter and are verified under C02; all six Transport call forms are under contract; the history claim 'at most one failure per pooled connection' is not decided.",
    design="5/C14", technique="contract-based deductive verification with ghost address/observation state, z3"),
  "C16": dict(
    text="Deductive proof of the Client lock invariant (every element of the live list and of the heap array is a value of the current target map under its own address; map keys are "
@@ -38,8 +38,8 @@ claimed = {
  "C17": dict(
    text="Deductive proof of schedule's postconditions (round-robin: element at the cursor and cursor+1 modulo n; random: a live target, cursor unchanged; single target short-cut), "
         "of target.Update's EWMA over the reals (dial error -> maximum, first sample -> sample, otherwise trunc(old*alpha + new*(1-alpha))) and of heapDown/minHeap preserving the "
-        "element multiset marking (heapify only permutes, bounds and nil-safety).",
-   note=TRUST+"float64 is treated as real arithmetic; heap-order minimality of the root (LeastTime non-probe pick) is NOT proved deductively yet (bounded stand-in planned); latencies are assumed quiescent during one activation.",
+        "element multiset marking (heapify only permutes, bounds and nil-safety), and that check resets the round-robin cursor only when the sorted live address set changed.",
+   note=TRUST+"float64 is treated as real arithmetic; heap-order minimality of the root (LeastTime non-probe pick) is NOT proved deductively: it is covered only by a bounded stand-in (labelled bounded in the evidence: minHeap/heapDown of the real code on every latency arrangement for n <= 6), which is not counted among the discharged obligations; latencies are assumed quiescent during one activation.",
    design="5/C17", technique="contract-based deductive verification, z3 (nonlinear real arithmetic for the EWMA)"),
  "C18": dict(
    text="Deductive proof of the safety core: closed => no registered waiter (lock invariant at every Unlock of wait, Close, check, director, detect), Close and checkPending drain the "
@@ -47,12 +47,69 @@ claimed = {
         "Alive marks a target dead only on ErrDial, and Call/CallWithContext issue no transport call when routing fails.",
    note=TRUST+"Every clause with a duration (detection time, DialTimeout) is liveness/timing and not decided; waiter release tokens are not tracked yet; the waiter sequence counter is assumed not to wrap.",
    design="5/C18", technique="contract-based deductive verification: lock invariant, loop invariants over map iteration, z3"),
+
+ "C01": dict(
+   text="Deductive proof of the decomposition the property rests on: (a) send registers the call and reads the sequence number in one critical section of Conn.mutex (lockset obligations) and hands "
+        "exactly that sequence number and the call's own upgrade/method/args to WriteRequest; (b) the default-header encoders put those fields on the wire in the documented format (clientCodec.WriteRequest, "
+        "serverCodec.WriteResponse against the wire spec functions of C07), the server answers a request from the same context object (same Seq, same Error text); (c) read looks the call up by the header's "
+        "sequence number under the lock, a call object is written only by the holder of its completion token, and finishCall copies the reply bytes of that same response into the call's own buffer and decodes them into that call's Reply, once.",
+   note=TRUST+"Byte-stream framing/fragmentation lives in hslam/socket (assumed); body codecs and the non-default header encoders are interface contracts (assumed) on the Write/Read paths; "
+        "that sequence numbers are unique per connection relies on the assumed no-wrap bound of the 64-bit counter; the end-to-end statement over all interleavings is the composition of these per-function facts, which is argued in DESIGN.md, not machine-checked as one theorem.",
+   design="5/C01", technique="contract-based deductive verification: lock invariant, lockset, call-site assertions and wire-format postconditions as generated obligations, z3"),
+ "C02": dict(
+   text="Deductive proof of at-most-once completion by linear ghost tokens: a call's token is created once by the front-end (Go/Call/CallWithContext/Ping/closeStream, or owned by the caller of RoundTrip), handed to the pending table "
+        "under Conn.mutex, taken out only by the thread that deletes the entry (read) or by the reader's final sweep, and consumed by (*Call).done; writes to Call.Error/Call.Value require the token. Lock invariant: "
+        "before shutdown every registered non-internal call has its token in the table, after shutdown none has. The genuine defect found (send completed a call again after a failed write) is repaired by a fix: commit.",
+   note=TRUST+"'Eventually completes' (no leak to a caller that waits forever) needs reader progress and is not decided; Done channels are assumed to have room (as the property states); stream-internal calls (open/stream messages) are exempt from the token discipline; "
+        "ghost token creation at the front-ends and the sweep's take-over are ghost updates written by hand (listed in the evidence).",
+   design="5/C02", technique="contract-based deductive verification: linear ghost tokens under a lock invariant (token tables), ownership obligations on field writes, z3"),
+ "C03": dict(
+   text="Deductive proof of the safety core: the reader's exit sets shutdown and completes every registered call with a non-nil error in one critical section (loop invariant over the map enumeration), send refuses with ErrShutdown whenever it sees shutdown or closing under the lock "
+        "and writes a request only when neither flag was set at registration, read drops responses after shutdown, a second Conn.Close reports ErrShutdown without closing the codec again.",
+   note=TRUST+"Bounded time and 'no caller blocks forever' are liveness and not decided; the codec's closed flag is an atomic treated as quiescent; cuts at arbitrary byte offsets are hslam/socket's framing (assumed).",
+   design="5/C03", technique="contract-based deductive verification: lock invariant, loop invariant over map iteration, call-site assertions, z3"),
+ "C04": dict(
+   text="Deductive proof with ghost event counters: on every path of ServeRequest/handleRequest/callService/sendResponse a plain request runs the handler (funcs.ValueCall) exactly once and hands exactly one response to the codec, a heartbeat or stream-open never runs a handler inline "
+        "(handleRequest requires Heartbeat != 1), serverCodec.WriteResponse writes exactly one message for the default header; Transport.Call/Go/RoundTrip/CallWithContext/Ping and the Client wrappers issue at most one call (no retry).",
+   note=TRUST+"hslam/funcs (reflection call) and hslam/scheduler are assumed contracts; that each decoded request is scheduled once relies on ServeCodec's loop (one ServeRequest per message read, proved) and on the scheduler running each task once (assumed); the poll-mode closure of listen is not under contract.",
+   design="5/C04", technique="contract-based deductive verification with ghost counters, z3"),
+ "C05": dict(
+   text="Deductive proof of the client-side structural core: with client pipelining (readSched set) no call is completed inline by the reader - the error branch and the reply branch both go through the ordered completion queue (call-site assertion on every inline done) - "
+        "and requests are written through writeSched. The genuine defect found (error branch completed inline) is repaired by a fix: commit.",
+   note=TRUST+"FIFO order and single-worker execution of hslam/scheduler queues are assumed; the server-side ordering (one handler at a time in read order, poll mode under the recving lock) is not decided by contracts yet: ServeRequest's dispatch through sched is verified only for panic-freedom/exactly-once.",
+   design="5/C05", technique="contract-based deductive verification: call-site assertions and spawn rule, z3"),
+ "C06": dict(
+   text="Deductive proof that the server puts ctx.Error verbatim and unmodified into the response of the same request (sendResponse/WriteResponse against the wire spec), that the client's error branch writes only the failing call (token ownership) and never decodes into its Reply, "
+        "that a failed write removes the call from the pending table before completing it, and that the error handed to the caller does not alias the recycled read buffer. The genuine defect found (error text aliasing the pooled buffer) is repaired by a fix: commit.",
+   note=TRUST+"Error texts are assumed non-empty (as the property states) and below 2^40 bytes; err.Error() of handler errors is an interface contract; equality of the text end to end composes the encoder (C07) and decoder contracts, the decoders being proved for safety only.",
+   design="5/C06", technique="contract-based deductive verification: call-site assertions over ghost error text, token ownership, z3"),
+ "C10": dict(
+   text="Deductive proof of the safety core: stream.stop sets the closed flag under the stream mutex and broadcasts, Close stops then calls the close hook, WriteMessage refuses after closed; the client reader's exit stops every registered stream (loop invariant), "
+        "ServeCodec's teardown closes every server stream of the connection exactly via the streams table, the close-stream request closes only a registered stream (nil-safe) and is answered.",
+   note=TRUST+"Promptness/'no handler stays blocked' is liveness (sync.Cond wake-up is assumed); stream.ReadMessage's wait loop and the poll-mode EOF branch of listen are NOT under contract - the latter is known from the design reading not to stop its streams and is not machine-checked here.",
+   design="5/C10", technique="contract-based deductive verification: lock invariants, loop invariants, z3"),
+ "C11": dict(
+   text="Deductive proof of the copy-before-recycle obligations on the request/response paths: the reply bytes of a call live in the caller's own buffer or in a fresh allocation when the read buffer is returned to the pool (finishCall), "
+        "the error text of a failed call is a private copy (read), handler arguments are decoded from a fresh copy unless NoCopy is set (readRequestBody), and finishCall writes a caller buffer only below the reported length (bounds obligations).",
+   note=TRUST+"Pool exclusivity (a buffer obtained from a pool is held by nobody else) is assumed; the caller's context buffer is assumed not to be the read buffer; stream.ReadMessage (stream messages) and third-party body codecs are not under contract.",
+   design="5/C11", technique="contract-based deductive verification: aliasing assertions at recycle points, z3"),
+ "C19": dict(
+   text="Deductive proof that CallWithContext recycles the call only on the completion branch and returns exactly ctx.Err() on the cancellation branch (ghost counters on PutCall / Context.Err), that an abandoned call stays registered so that a late response is consumed without touching any other call "
+        "(token ownership of Call fields, unknown sequence numbers write no call), and that finishCall uses the caller's buffer iff its capacity suffices and never slices beyond it.",
+   note=TRUST+"'As soon as the context is done' is timing and not decided; context.Context is an interface contract.",
+   design="5/C19", technique="contract-based deductive verification: ghost counters, ownership obligations, bounds obligations, z3"),
+ "C20": dict(
+   text="Deductive proof of the safety core for Conn, Client and the per-connection server loop: Conn.Close closes the codec exactly when closing was not yet set and reports ErrShutdown otherwise, the reader's exit closes every per-connection queue it owns, "
+        "NewConnWithCodec starts exactly one reader on a fresh connection, ServeCodec closes its codec exactly once after the loop and every stream and queue of the connection, Client.Close drains all waiters and closes done at most once.",
+   note=TRUST+"Transport.Close/CloseIdleConnections/run and Server.Close/listen are not under contract yet; goroutine exit and Listen returning are liveness of hslam/socket and not decided.",
+   design="5/C20", technique="contract-based deductive verification: typestate and ghost counters, z3"),
  "C08": dict(
    text="Deductive proof of panic-freedom: every index, slice, nil-dereference, type-assertion and callee-precondition obligation generated from the "
         "header decoders and upgrade.Unmarshal is discharged for all byte strings (precondition true), and accepted fields are proved to lie inside the frame; "
         "the obligations that fail on the pinned tree are genuine defects (truncated frames panic the four decoders; over-read behind len) replayed on the real code "
-        "and listed in known_findings.json.",
-   note=TRUST+"Dispatch path (ServeRequest..sendResponse), Conn.read and the teardown typestate are not under contract yet; panics needing an interleaving are out of reach.",
+        "and listed in known_findings.json. The dispatch path is proved panic-free for all 32 upgrade flag combinations after the fix.",
+   note=TRUST+"Also covered now: the server dispatch path (ServeRequest, handleRequest, readRequestBody, callService, sendResponse, ServeCodec) for every upgrade flag byte, and the client read path (recv, read, finishCall); "
+        "the fifteen crashing flag bytes found there are repaired by a fix: commit. Not covered: the poll-mode closure of listen, the json header (encoding/json trusted), panics needing an interleaving beyond the lock discipline.",
    design="5/C08", technique="contract-based deductive verification (panic-freedom obligations from go/ssa, z3), counterexamples replayed via go test -overlay"),
 }
 checks=[]
@@ -63,7 +120,13 @@ for p in props:
         checks.append({"property_id":i,"quick_cmd":"/verif/check %s quick"%i,"thorough_cmd":"/verif/check %s thorough"%i,
           "evidence_file":"/verif/evidence/%s.json"%i,"replay_cmd_template":"cd /repo && go test -overlay <overlay mapping /repo/zz_govc_replay_test.go to {path}> -vet=off -run '^TestGovcReplay$' .",
           "engine":"govc","level_claimed":{"category":"proof","text":c["text"],"design_ref":c["design"]},"level_note":c["note"],"technique":c["technique"]})
-na=[{"property_id":p["id"],"reason":"check not finished yet: contracts for this property are still being brought under the verifier (DESIGN.md section 7 gives the order); no other technique is substituted"} for p in props if p["id"] not in claimed]
+NA = {
+ "C09": "Exactly-once, in-order delivery per stream is a property of whole message histories over two hslam/scheduler queues and of a stream phase kept in an upgrade object that one thread mutates while another reads it (the design reading found a message consumed as a second ack there). "
+        "The per-function contracts in reach prove routing by sequence number, the internal/stream flag relation and copy-before-release on this path (tagged C09 in the contract file), but no contract over a single call expresses 'the sequence delivered equals the sequence written', and the racy phase field would need an ownership model of the shared upgrade object that was not built. Not claimed rather than switching technique.",
+ "C12": "Equality of outcomes across every network/codec/mode combination is a relational property of whole workloads over third-party transports (tcp/unix/http/ws/TLS, netpoll); a function contract cannot state it. The mode flags are universally quantified in the contracts of C01/C04/C06/C08/C11, which is the only part in reach; the Options resolution functions are not under contract.",
+ "C15": "Transport.run, CloseIdleConnections and Close (nested loops over both pool maps with deletion and queue surgery) were not brought under contract in the time available, so neither 'housekeeping closes only connections observed idle' nor 'Close closes every pooled connection' is decided; connQueue is still an assumed abstract data type. No bounded stand-in is offered in its place.",
+}
+na=[{"property_id":p["id"],"reason":NA.get(p["id"],"check not finished: no contract decides this property yet; no other technique is substituted")} for p in props if p["id"] not in claimed]
 m={"version":1,
  "setup_cmd":"cd /verif/govc && GOFLAGS=-mod=mod GOPROXY=off GOSUMDB=off GOTOOLCHAIN=local go build -o /verif/bin/govc ./cmd/govc",
  "hooks":{"guard":"verif","enable":"go/packages loads /repo with -tags verif, which adds the comment-only contract file contracts_verif.go; no executable code is guarded",
